@@ -465,8 +465,12 @@ static void op_emit(vf_rng *r, char *d, size_t dn)
 			vf_log("dispatch_emit(NULL) default %#" PRIxPTR " unregistered = %d, _def now %#" PRIxPTR, mdef, ret, disp._def);
 			vf_count("default:dangling-emitted", 1);
 			VF_CHECK(op_events == 0, "model:emit:unexpected-delivery", "default emit for unregistered default id %#" PRIxPTR " delivered an event", mdef);
-			mdef = disp._def;
-			vf_count("monitor:default-adopted", 1);
+			/* the dispatcher reports "invalid default command id" and drops that default: afterwards no
+			 * default call is available (emit results must not advertise one, emit(NULL) is a no-op) */
+			VF_CHECK(ret < 0, "model:default:dangling-emit-succeeded", "default emit for unregistered default id %#" PRIxPTR " returned %d", mdef, ret);
+			VF_CHECK(disp._def == 0, "model:default:dangling-not-dropped", "default id %#" PRIxPTR " has no handler, default emit failed (%d) but the id is still kept as default (%#" PRIxPTR ")", mdef, ret, disp._def);
+			mdef = 0;
+			vf_count("monitor:default-dangling-dropped", 1);
 			check_fins(0); check_table();
 			return;
 		}
